@@ -760,7 +760,9 @@ def specEdges : List (Kind × String) := [
   (.schemaRef, "value"), (.innerSchemaRef, "value"),
   (.schema, "oneOf"), (.schema, "anyOf"), (.schema, "allOf"), (.schema, "not"), (.schema, "items"),
   (.schema, "properties"), (.schema, "additionalProperties"), (.schema, "xml"), (.schema, "discriminator"),
-  (.securitySchemeRef, "value"), (.servers, "items")]
+  (.securitySchemeRef, "value"), (.securityScheme, "flows"), (.oauthFlows, "implicit"), (.oauthFlows, "password"),
+  (.oauthFlows, "clientCredentials"), (.oauthFlows, "authorizationCode"),
+  (.servers, "items"), (.server, "variables")]
 
 def specAct : Act := fun k _ pos => specEdges.contains (k, pos)
 def allAct : Act := fun _ _ _ => true
